@@ -361,6 +361,8 @@ class Agent(dbus.service.Object):
         except Exception as err:
             self._logger.error('Failed to forward bundle %s: %s', ctr.log_name(), err)
             self._logger.debug('%s', traceback.format_exc())
+            # the routing decision was not carried out
+            ctr.actions.pop('forward', None)
             ctr.record_action('delete', StatusReport.ReasonCode.NO_ROUTE)
 
         self._finish_bundle(ctr)
